@@ -51,7 +51,9 @@ func genSegment(t *rapid.T, slashOK bool) string {
 	return sb.String()
 }
 
-var queries = []string{"", "a=1", "a=1&a=2&b=", "c&d=%20x&e=%26&a=3", "strip=me&keep=1&strip=again", "k%65y=v%41l&strip=x", "x=1;y=2", "q=a+b&r=%2B"}
+var queries = []string{"", "a=1", "a=1&a=2&b=", "c&d=%20x&e=%26&a=3", "strip=me&keep=1&strip=again", "k%65y=v%41l&strip=x", "x=1;y=2", "q=a+b&r=%2B",
+	// queries Go's strict parser refuses as a whole (semicolon, invalid escape): the parameters to strip are still well-formed
+	"strip=1&x=1;y=2", "a=1&other=%zz&strip=2", "key=secret&%zz=1&a=2"}
 
 type rewrite struct {
 	Scheme     string
@@ -67,6 +69,7 @@ type scenario struct {
 	Slash         string
 	Rewrite       *rewrite
 	ClientHeaders []vkit.HeaderKV
+	SentXFF2      bool
 	Body          []byte
 	Chunked       bool
 	ReadsBody     bool
@@ -148,7 +151,7 @@ func genScenario(t *rapid.T) scenario {
 		s.Rewrite.Scheme = "http"
 	}
 
-	for _, name := range []string{"X-User", "Authorization", "X-Plain"} {
+	for _, name := range []string{"X-User", "Authorization", "X-Plain", "X-Empty"} {
 		if rapid.Bool().Draw(t, "clientSends."+name) {
 			s.ClientHeaders = append(s.ClientHeaders, vkit.HeaderKV{Name: randCase(t, name), Value: "client-" + strings.ToLower(name)})
 			if rapid.IntRange(0, 3).Draw(t, "twice") == 0 {
@@ -171,6 +174,12 @@ func genScenario(t *rapid.T) scenario {
 	if rapid.IntRange(0, 2).Draw(t, "xff") == 0 {
 		s.SentXFF = true
 		s.ClientHeaders = append(s.ClientHeaders, vkit.HeaderKV{Name: "X-Forwarded-For", Value: "198.51.100.7"})
+
+		// a chain of proxies may have added several header lines (equivalent to one comma separated list)
+		if rapid.IntRange(0, 2).Draw(t, "xffSecondLine") == 0 {
+			s.SentXFF2 = true
+			s.ClientHeaders = append(s.ClientHeaders, vkit.HeaderKV{Name: "X-Forwarded-For", Value: "203.0.113.9"})
+		}
 	} else if rapid.IntRange(0, 2).Draw(t, "forwarded") == 0 {
 		s.SentForwarded = true
 		s.ClientHeaders = append(s.ClientHeaders, vkit.HeaderKV{Name: "Forwarded", Value: "for=198.51.100.7;proto=http"})
@@ -198,6 +207,8 @@ func buildWorld(s scenario) (*vkit.World, error) {
 	}}}
 	conf.Prototypes.Finalizers = []config.Mechanism{{ID: "hdrs", Type: "header", Config: config.MechanismConfig{"headers": map[string]any{
 		"X-User": "pipeline-user", "Authorization": "Bearer pipeline-token",
+		// a template which renders to nothing (an attribute the subject does not have): still the pipeline's header
+		"X-Empty": `{{ if eq .Subject.ID "nobody" }}x{{ end }}`,
 	}}}}
 
 	w, err := vkit.NewWorld(vkit.WorldOpts{Conf: conf, Mode: config.ProxyMode})
@@ -222,6 +233,31 @@ func buildWorld(s scenario) (*vkit.World, error) {
 		Matcher: rulecfg.Matcher{Routes: []rulecfg.Route{{Path: "/**"}}}, Execute: exec, Backend: be})
 
 	return w, err
+}
+
+// rawPairs: the "&" separated pairs of a query whose (decoded, if decodable) name is not to be removed, sorted.
+func rawPairs(q string, remove []string) []string {
+	var out []string
+
+	for _, pair := range strings.Split(q, "&") {
+		name, _, _ := strings.Cut(pair, "=")
+		if dec, err := url.QueryUnescape(name); err == nil {
+			name = dec
+		}
+
+		drop := false
+		for _, r := range remove {
+			drop = drop || r == name
+		}
+
+		if !drop && pair != "" {
+			out = append(out, pair)
+		}
+	}
+
+	sort.Strings(out)
+
+	return out
 }
 
 func multiset(q string, remove []string) ([]string, bool) {
@@ -330,6 +366,13 @@ func TestForwardedRequestIsTheRewrittenRequest(t *testing.T) {
 			if fmt.Sprint(got) != fmt.Sprint(want) {
 				t.Fatalf("upstream query parameters %v, expected %v (removed %v from %q)\n%s", got, want, s.Rewrite.StripQuery, s.RawQuery, s)
 			}
+		} else {
+			// not parsable as a whole: pair by pair
+			vkit.S.Label("query_not_parsable_as_a_whole")
+
+			if got, want := rawPairs(gotQuery, nil), rawPairs(s.RawQuery, s.Rewrite.StripQuery); fmt.Sprint(got) != fmt.Sprint(want) {
+				t.Fatalf("upstream query %q: parameters %v, expected %v (removed %v from %q)\n%s", gotQuery, got, want, s.Rewrite.StripQuery, s.RawQuery, s)
+			}
 		}
 
 		if up.Method != s.Method {
@@ -346,6 +389,12 @@ func TestForwardedRequestIsTheRewrittenRequest(t *testing.T) {
 
 		if got := up.Header.Values("Authorization"); len(got) != 1 || got[0] != "Bearer pipeline-token" {
 			t.Fatalf("upstream Authorization %q, expected only the pipeline's value\n%s", got, s)
+		}
+
+		for _, v := range up.Header.Values("X-Empty") {
+			if v != "" {
+				t.Fatalf("upstream X-Empty %q: the pipeline produced this header (with an empty value), the client's value must not pass\n%s", up.Header.Values("X-Empty"), s)
+			}
 		}
 
 		for _, h := range s.ClientHeaders {
@@ -372,8 +421,15 @@ func TestForwardedRequestIsTheRewrittenRequest(t *testing.T) {
 		switch {
 		case s.TrustedPeer && s.SentXFF:
 			parts := strings.Split(xff, ",")
+			xff = strings.Join(up.Header.Values("X-Forwarded-For"), ",")
+			parts = strings.Split(xff, ",")
+
 			if strings.TrimSpace(parts[len(parts)-1]) != s.Peer || !strings.Contains(xff, "198.51.100.7") {
 				t.Fatalf("X-Forwarded-For %q is not the client's list extended by the peer %s\n%s", xff, s.Peer, s)
+			}
+
+			if s.SentXFF2 && !strings.Contains(xff, "203.0.113.9") {
+				t.Fatalf("X-Forwarded-For %q lost the element of the client's second header line (203.0.113.9)\n%s", xff, s)
 			}
 		default:
 			parts := strings.Split(fwd, ",")
